@@ -273,4 +273,179 @@ theorem strip_eq_iff (l : Str) : strip l = l ↔
       exact rstrip_concat_of_not_ws hlast
 
 
+
+/-! ### reading digits back -/
+
+theorem natStr_all_digits (n : Nat) : ∀ c ∈ natStr n, isDigit c = true := by
+  induction n using Nat.strongRecOn with
+  | _ n ih =>
+    rw [natStr_eq]
+    split
+    · next h => intro c hc; simp at hc; subst hc; exact isDigit_digitChar h
+    · next h =>
+      intro c hc
+      simp at hc
+      rcases hc with hc | hc
+      · exact ih (n / 10) (by omega) c hc
+      · subst hc; exact isDigit_digitChar (by omega)
+
+theorem digitsValAux_snoc (s : Str) (d acc : Nat) (hd : d < 10) :
+    digitsValAux (s ++ [digitChar d]) acc = (digitsValAux s acc).map (fun v => v * 10 + d) := by
+  induction s generalizing acc with
+  | nil => simp [digitsValAux, isDigit_digitChar hd, digitVal_digitChar hd]
+  | cons c cs ih =>
+    simp only [List.cons_append, digitsValAux]
+    split
+    · exact ih _
+    · rfl
+
+theorem digitsValAux_append (s t : Str) (acc : Nat) :
+    digitsValAux (s ++ t) acc = (digitsValAux s acc).bind (fun v => digitsValAux t v) := by
+  induction s generalizing acc with
+  | nil => simp [digitsValAux]
+  | cons c cs ih =>
+    simp only [List.cons_append, digitsValAux]
+    split
+    · exact ih _
+    · rfl
+
+theorem digitsValAux_natStr (n : Nat) : digitsValAux (natStr n) 0 = some n := by
+  induction n using Nat.strongRecOn with
+  | _ n ih =>
+    rw [natStr_eq]
+    split
+    · next h => simp [digitsValAux, isDigit_digitChar h, digitVal_digitChar h]
+    · next h =>
+      rw [digitsValAux_snoc _ _ _ (by omega), ih (n / 10) (by omega)]
+      simp; omega
+
+theorem natStr_ne_nil (n : Nat) : natStr n ≠ [] := by
+  intro h; have := natStr_length_pos n; rw [h] at this; simp at this
+
+theorem digitsVal_natStr (n : Nat) : digitsVal (natStr n) = some n := by
+  unfold digitsVal
+  have := natStr_ne_nil n
+  cases h : natStr n with
+  | nil => exact absurd h this
+  | cons c cs => simp only [List.isEmpty_cons, Bool.false_eq_true, if_false]; rw [← h]; exact digitsValAux_natStr n
+
+theorem digitsValAux_fixedDigits (k n acc : Nat) :
+    digitsValAux (fixedDigits k n) acc = some (acc * 10 ^ k + n % 10 ^ k) := by
+  induction k generalizing n acc with
+  | zero => simp [fixedDigits, digitsValAux, Nat.mod_one]
+  | succ k ih =>
+    simp only [fixedDigits]
+    rw [digitsValAux_snoc _ _ _ (by omega), ih]
+    simp only [Option.map_some, Option.some.injEq]
+    have h1 : n % 10 ^ (k + 1) = (n / 10 % 10 ^ k) * 10 + n % 10 := by
+      rw [Nat.pow_succ, Nat.mul_comm, Nat.mod_mul]; omega
+    rw [h1, Nat.pow_succ]
+    rw [Nat.add_mul, Nat.mul_assoc, Nat.add_assoc]
+
+theorem fixedDigits_all_digits (k n : Nat) : ∀ c ∈ fixedDigits k n, isDigit c = true := by
+  induction k generalizing n with
+  | zero => simp [fixedDigits]
+  | succ k ih =>
+    intro c hc
+    simp [fixedDigits] at hc
+    rcases hc with hc | hc
+    · exact ih _ c hc
+    · subst hc; exact isDigit_digitChar (by omega)
+
+theorem natStr_length_eq : ∀ (k n : Nat), 10 ^ k ≤ n → n < 10 ^ (k + 1) → (natStr n).length = k + 1 := by
+  intro k
+  induction k with
+  | zero => intro n _ h2; rw [natStr_lt10 (by simpa using h2)]; rfl
+  | succ k ih =>
+    intro n h1 h2
+    rw [natStr_eq]
+    have h10 : ¬ n < 10 := by
+      have : 10 ≤ 10 ^ (k + 1) := by
+        rw [Nat.pow_succ]; exact Nat.le_mul_of_pos_left 10 (Nat.pow_pos (by omega))
+      omega
+    rw [if_neg h10]
+    have := ih (n / 10) (by rw [Nat.pow_succ] at h1; omega) (by rw [Nat.pow_succ] at h2; omega)
+    simp [this]
+
+theorem findIdx?_skip {p : Char → Bool} (A : Str) (x : Char) (B : Str) (hA : ∀ c ∈ A, p c = false) (hx : p x = true) :
+    (A ++ x :: B).findIdx? p = some A.length := by
+  induction A with
+  | nil => simp [List.findIdx?_cons, hx]
+  | cons a as ih =>
+    simp only [List.cons_append, List.findIdx?_cons, hA a (by simp)]
+    rw [ih (fun c hc => hA c (by simp [hc]))]
+    simp
+
+theorem rfind_last (P E : Str) (sep : Char) (hE : ∀ c ∈ E, c ≠ sep) : rfind (P ++ sep :: E) sep = some P.length := by
+  unfold rfind
+  have : (P ++ sep :: E).reverse = E.reverse ++ sep :: P.reverse := by simp
+  rw [this, findIdx?_skip E.reverse sep P.reverse (by intro c hc; simp at hc; simpa using hE c hc) (by simp)]
+  simp
+
+
+
+/-! ### the decimal-point-assumed notation -/
+
+theorem isDigit_not_sign {c : Char} (h : isDigit c = true) : c ≠ '+' ∧ c ≠ '-' ∧ c ≠ '.' := by
+  have := (isDigit_iff c).1 h
+  refine ⟨?_, ?_, ?_⟩ <;> (intro hc; subst hc; revert this; decide)
+
+theorem contains_plus_false (m e : Nat) : ('.' :: (natStr m ++ '-' :: natStr e)).contains '+' = false := by
+  simp
+  exact ⟨fun h => (isDigit_not_sign (natStr_all_digits _ _ h)).1 rfl, fun h => (isDigit_not_sign (natStr_all_digits _ _ h)).1 rfl⟩
+
+/-- reading `s . D sep E` (sign, point, mantissa digits, exponent sign, exponent digits) -/
+theorem tleFloatSigned_core (s sep : Char) (m e : Nat) (hs : s = '+' ∨ s = '-')
+    (hsep : sep = '+' ∨ sep = '-') :
+    tleFloatSigned (s :: '.' :: (natStr m ++ sep :: natStr e))
+    = .ok ⟨s = '-', m, if sep = '-' then ((natStr m).length : Int) + e else ((natStr m).length : Int) - e⟩ := by
+  have hE : ∀ c ∈ natStr e, c ≠ sep := by
+    intro c hc
+    have := isDigit_not_sign (natStr_all_digits e c hc)
+    rcases hsep with h | h <;> subst h <;> simp [this]
+  have hr : rfind (s :: '.' :: (natStr m ++ sep :: natStr e)) sep = some (2 + (natStr m).length) := by
+    have : (s :: '.' :: (natStr m ++ sep :: natStr e)) = (s :: '.' :: natStr m) ++ sep :: natStr e := by simp
+    rw [this, rfind_last _ _ _ hE]
+    simp; omega
+  have htake : (s :: '.' :: (natStr m ++ sep :: natStr e)).take (2 + (natStr m).length) = s :: '.' :: natStr m := by
+    simp [Nat.add_comm 2]
+  have hdrop : (s :: '.' :: (natStr m ++ sep :: natStr e)).drop (2 + (natStr m).length + 1) = natStr e := by
+    have : (s :: '.' :: (natStr m ++ sep :: natStr e)) = (s :: '.' :: natStr m ++ [sep]) ++ natStr e := by simp
+    rw [this]
+    apply List.drop_left'
+    simp; omega
+  have hpf : pyFloatCore (s :: '.' :: natStr m) = .ok ⟨s = '-', m, (natStr m).length⟩ := by
+    unfold pyFloatCore
+    have hne := natStr_ne_nil m
+    rcases hs with h | h <;> subst h <;>
+      simp [splitSign, isDigit, digitsValAux_natStr, hne]
+  have hc : ((List.drop 1 (s :: '.' :: (natStr m ++ sep :: natStr e))).contains '+' ||
+      (List.drop 1 (s :: '.' :: (natStr m ++ sep :: natStr e))).contains '-') = true := by
+    rcases hsep with h | h <;> subst h <;> simp
+  have hsel : (if (List.drop 1 (s :: '.' :: (natStr m ++ sep :: natStr e))).contains '+' = true then '+' else '-') = sep := by
+    rcases hsep with h | h
+    · subst h; simp
+    · subst h
+      show (if ('.' :: (natStr m ++ '-' :: natStr e)).contains '+' = true then '+' else '-') = '-'
+      rw [contains_plus_false]; rfl
+  unfold tleFloatSigned
+  simp only [hc, if_true, hsel, hr, htake, hdrop, hpf, digitsVal_natStr]
+
+theorem strip_of_ends {l : Str} {a z : Char} (h0 : l[0]? = some a) (h1 : l[l.length - 1]? = some z)
+    (ha : isWs a = false) (hz : isWs z = false) : strip l = l := by
+  rw [strip_eq_iff]
+  exact ⟨fun c hc => by rw [h0] at hc; cases hc; exact ha, fun c hc => by rw [h1] at hc; cases hc; exact hz⟩
+
+theorem natStr_last (n : Nat) : ∃ d, d < 10 ∧ (natStr n)[(natStr n).length - 1]? = some (digitChar d) := by
+  rw [natStr_eq]
+  split
+  · next h => exact ⟨n, h, by simp⟩
+  · exact ⟨n % 10, by omega, by simp⟩
+
+theorem natStr_head (n : Nat) : ∃ c, isDigit c = true ∧ ∃ t, natStr n = c :: t := by
+  cases h : natStr n with
+  | nil => exact absurd h (natStr_ne_nil n)
+  | cons c t => exact ⟨c, natStr_all_digits n c (by rw [h]; simp), t, rfl⟩
+
+
 end BeyondVerif.Tle
